@@ -262,7 +262,8 @@ PROPS = {
         title='Failure propagation (the safety half: WHICH error a stopped handle reports; stop reason published before the channels close)',
         assumptions=[
             'DECIDED (necessary conditions, per function): (a) the event loops of the connection and session engines publish the stop reason BEFORE they close the channels through which handles, sessions and links learn of the stop (an order obligation at the close calls), and that reason is the peer\'s Close / End error, the peer\'s plain close / end, or the connection\'s fate, as derived from the loop\'s outcome (tails of ConnectionEngine::event_loop and SessionEngine::event_loop, rule R32); (b) the result handed to the ConnectionHandle / SessionHandle is the peer\'s error when the peer supplied one; (c) every link operation under contract that finds the channel to its session closed (send_transfer, send_flow, dispose, dispose_consecutive, send_detach, recv_inner) fails with SessionStopped(reason read from the published cell) -- at once, without waiting -- and with IllegalState only when no reason was recorded',
-            'NOT DECIDED (the headline of C14): that no call hangs and that every operation completes within bounded time; that all engine tasks terminate; behaviour at transport cut points (every byte offset x every pending operation x schedules of the four tokio tasks); that a oneshot / mpsc receiver really observes the closure (tokio); DeliveryFut::poll and the public handle wrappers (not under contract); that the stop-reason cells are the SAME cells the handles read (Arc sharing is erased, R8)',
+            'ALSO DECIDED since session 6: (d) which cells and queues are SHARED (identity model R8b, units WIRING / SESSWIRING / CONNWIRING / DISPOSER): the stop-reason cell a handle, a session or a link reads is the cell the engine it belongs to publishes into, and the queues a handle writes are the ones its engine reads; (e) two safety-shaped causes of hangs: when the session engine stops (SESSENG [C14.session-stop.pending-sends-released]) and when the peer detaches the link (LINK [C14.link-detach.pending-sends-released]) every send that still waits for its outcome is released (defects D81 / D82, repaired); (f) DeliveryFut::poll (unit DELIVFUT) and the public Sender / Receiver / handle wrappers (units LINKAPI, HANDLES) are under contract',
+            'NOT DECIDED (the headline of C14): that no call hangs and that every operation completes within bounded time IN GENERAL; that all engine tasks terminate; behaviour at transport cut points (every byte offset x every pending operation x schedules of the four tokio tasks); that a oneshot / mpsc receiver really observes the closure (tokio); that a send released by a link detach carries the peer\'s error itself (it reports IllegalState, the peer\'s error comes with the next operation)',
             ASYNC, ENGINE]),
     'C16': dict(
         units=['REASM', 'SENDSPLIT', 'LINK', 'LINKFLOW'], kani=[], level='proof', title='Cancel safety (custody obligations at the cancellation points of recv and send)',
